@@ -2,6 +2,22 @@
 """Prompt for a sub-agent that writes behaviour-PRESERVING changes (to test that checks raise no false alarm)."""
 import json, sys
 pid, wt = sys.argv[1], sys.argv[2]
+import glob, os
+avoid = ""
+if len(sys.argv) > 3 and sys.argv[3] == "avoid":
+    heads = []
+    for d in sorted(glob.glob('/verif/neutral/%s-*' % pid)):
+        f = os.path.join(d, 'notes.md')
+        if os.path.exists(f):
+            lines = [l.strip('# ').strip() for l in open(f) if l.strip()]
+            if lines:
+                heads.append(lines[0][:160])
+    avoid = ("\n\nOther engineers already produced the changes listed below; yours must be different in kind. This time prefer: CORRECT memo tables and "
+             "caches with history (right key including every argument and flag, results copied out, invalidated where needed, filled lazily), lazily built "
+             "lookup tables, exception paths restructured with try/finally so that a refused call leaves no trace, per-object private caches that are "
+             "invalidated by every mutator, fast paths that are exact, and re-implementations of comparison / equality / hashing helpers that give the same "
+             "answers. They must be correct under ANY sequence of calls (valid and refused ones), for objects shared between containers, for objects edited "
+             "in place between calls, and after importlib.reload of the module.\n" + "\n".join("  - " + h for h in heads))
 for l in open('/verif/properties.jsonl'):
     p = json.loads(l)
     if p['id'] == pid:
@@ -16,7 +32,7 @@ STATEMENT: {p['statement']}
 
 Relevant source files: {', '.join(p['anchors']['files'])}
 
-Your task: produce 3 DIFFERENT, independent, realistic maintenance changes (patches) to the library's source (under {wt}/mingus/ only, never tests) that a maintainer might make and that KEEP the property above true for every input and every call history — genuine refactorings and internal improvements of the code the property is about, for example: rewriting a function with a different algorithm or data structure (a table instead of an if-chain, arithmetic instead of a loop, a regex, a comprehension), introducing a CORRECT cache (right key, results copied out), renaming or restructuring private helpers and private module-level tables, changing an internal representation (e.g. keeping an exact running total next to a float, tuples instead of lists internally, a private attribute added to a class) while keeping the public API, attributes and return values exactly as they are, reordering independent statements, tightening input validation in ways the statement already demands, improving error messages (same exception types). Make them substantial (not a comment or whitespace change): each should touch the logic the property talks about and would make a careless checker, which peeks at private details or depends on incidental behaviour, raise a false alarm. They must not change any behaviour the statement speaks about, and should also keep everything else the public API documents.
+Your task: produce 3 DIFFERENT, independent, realistic maintenance changes (patches) to the library's source (under {wt}/mingus/ only, never tests) that a maintainer might make and that KEEP the property above true for every input and every call history — genuine refactorings and internal improvements of the code the property is about, for example: rewriting a function with a different algorithm or data structure (a table instead of an if-chain, arithmetic instead of a loop, a regex, a comprehension), introducing a CORRECT cache (right key, results copied out), renaming or restructuring private helpers and private module-level tables, changing an internal representation (e.g. keeping an exact running total next to a float, tuples instead of lists internally, a private attribute added to a class) while keeping the public API, attributes and return values exactly as they are, reordering independent statements, tightening input validation in ways the statement already demands, improving error messages (same exception types). Make them substantial (not a comment or whitespace change): each should touch the logic the property talks about and would make a careless checker, which peeks at private details or depends on incidental behaviour, raise a false alarm. They must not change any behaviour the statement speaks about, and should also keep everything else the public API documents.{avoid}
 
 Each change, applied alone to the clean tree, must import/compile and keep the test-suite green: `cd {wt} && /venv/bin/python -m pytest -q -p no:cacheprovider --timeout=900 --continue-on-collection-errors` must still report `190 passed` (1 collection error for test_fluidsynth is the normal baseline).
 
